@@ -1070,6 +1070,40 @@ def len_cmp(so):
 
 # ---- C09 ----------------------------------------------------------------------------------------------------------------------------------------
 
+def watcher_lists(chk, P, prefix):
+    """Watchers keeps one list per event: push_on_X appends the callback to the list notify_on_X empties (take: the batch was handed to
+    the receiver; flush: its last attempt is over), each callback taken out of the list before it runs (so it runs once), and each runs
+    inside catch_unwind so one panicking callback cannot keep the others from running."""
+    def f():
+        W = "emit_batcher::Watchers::"
+        ev = []
+        fields = {}
+        for ev_name in ("take", "flush"):
+            pb, nb = P.body(W + "push_on_" + ev_name), P.body(W + "notify_on_" + ev_name)
+            pushes = [c for c in pb.calls(normal_only=True) if c.callee.get("name") in ("push", "push_back", "insert", "extend")]
+            if len(pushes) != 1 or pb.count_on_paths({pushes[0].bb}) != (1, 1):
+                return False, "push_on_%s must append its callback exactly once" % ev_name, [], pb.span
+            pf = mir.o_field_path(pb.origin(pushes[0].args[0], through_calls=("deref", "deref_mut", "as_mut")))[1][-1:]
+            if not any(l[0] == "param" and l[2] == 2 for l in common.deep_roots(P, pb, pb.origin(pushes[0].args[1]))):
+                return False, "push_on_%s appends %s, not its callback" % (ev_name, o_str(pb.origin(pushes[0].args[1]))), [], pushes[0].loc
+            tk = [c for c in nb.calls(normal_only=True) if c.callee.get("name") in ("take", "replace", "drain", "pop", "swap")]
+            if len(tk) != 1:
+                return False, "notify_on_%s must take its callbacks out of the list (mem::take / drain) before running them" % ev_name, [], nb.span
+            nf = mir.o_field_path(nb.origin(tk[0].args[0], through_calls=("deref", "deref_mut", "as_mut")))[1][-1:]
+            if pf != nf or not pf:
+                return False, ("push_on_%s appends to `%s` but notify_on_%s runs `%s`: the callback fires on the other event (a flush callback "
+                               "on hand-off reports completion before the batch was processed) or never" % (ev_name, (pf or ["?"])[0], ev_name, (nf or ["?"])[0])), [], pushes[0].loc
+            fields[ev_name] = pf[0]
+            cu = [c for c in nb.calls(normal_only=True) if c.callee.get("name") == "catch_unwind" and nb.in_cycle(c.bb)]
+            if len(cu) != 1:
+                return False, "notify_on_%s must run each callback inside catch_unwind, in a loop over the list" % ev_name, [], nb.span
+            ev += [pushes[0].loc, tk[0].loc]
+        if fields["take"] == fields["flush"]:
+            return False, "take and flush callbacks share the list `%s`" % fields["take"], [], None
+        return True, "", ev
+    chk.ob("%s.R3:watcher-lists" % prefix, "each kind of callback is appended to the list its own notification empties; callbacks run once, contained", f)
+
+
 def callbacks_consumed(chk, P, prefix):
     """when_empty / when_flushed: on every path the callback is either invoked at once or parked in the pending batch's watcher list -
     exactly one of the two, never neither (a lost callback leaves a blocking flush / send waiting out its whole timeout, and the
